@@ -876,3 +876,39 @@ def r_recomb(ctx):
     run.check(okc, 'R-RECOMB', f, 'count=product-of-site-counts-from-1', f.node.lineno, 'count starts at 1, count *= len(fragments)',
               'the candidate count does not start at 1 / is not multiplied by the per-site candidate counts: a clean strand '
               '(empty product) must give count 1 so that it reaches the product path', inputs='clean strands')
+
+
+def r_tile_clamp(ctx):
+    """C10: for an error inside the first window (cursor < k) the look-back marker and the chunk are empty together"""
+    run = ctx.run
+    run.rule('R-CLAMP', "in the error arm of repair_dna the look-back marker IQ[lo:hi] and the chunk STRAND[lo':hi'] are both plain "
+                        "slices whose lower bounds go negative together for a cursor inside the first window (both then select "
+                        "nothing), or both are clamped at 0: a marker that is clamped while the chunk wraps gives path_matching a "
+                        "vertex to recall but no chunk to index")
+    f = ctx.p.func('dsw.spiderweb.repair_dna')
+    strand = ('v', 'dna_sequence', 'P')
+    forms = {}
+    for nd in f.nodes:
+        if nd.kind == 'stmt' and isinstance(nd.stmt, ast.Expr) and isinstance(nd.stmt.value, ast.Call) and \
+                isinstance(nd.stmt.value.func, ast.Attribute) and nd.stmt.value.func.attr == 'append' and nd.loops:
+            t = f.term(nd.stmt.value, nd)
+            arg = t[2][0] if t[2] else None
+            if arg is None or arg[0] != 'sub' or arg[2][0] != 'slice':
+                continue
+            base = arg[1]
+            composite = base[0] == 'sub' and base[2][0] == 'slice'
+            root = base[1] if composite else base
+            clamped = composite or any(is_call(x, 'builtins.max') for x in walk_term(arg[2]))
+            role = 'chunk' if root == strand else ('marker' if root[0] == 'v' else None)
+            if role:
+                forms[role] = (clamped, nd.lineno, show(arg)[:60])
+    if 'chunk' not in forms or 'marker' not in forms:
+        raise AnalysisError("rule R-CLAMP lost its anchor: chunk / marker appends (%s)" % sorted(forms))
+    ok = forms['chunk'][0] == forms['marker'][0]
+    run.check(ok, 'R-CLAMP', f, 'marker-and-chunk-clamped-alike', forms['marker'][1],
+              'marker and chunk treat a cursor inside the first window alike',
+              "the look-back marker is %s (%s at 0) while the chunk is %s (%s): for an error inside the first window one is empty "
+              "and the other is not, and path_matching indexes an empty chunk (IndexError)"
+              % (forms['marker'][2], 'clamped' if forms['marker'][0] else 'not clamped', forms['chunk'][2],
+                 'clamped' if forms['chunk'][0] else 'not clamped'),
+              inputs='k >= 3, first error at positions 1..k-2')
